@@ -265,6 +265,13 @@ def sxOptCps : SX → Option (Option Cps)
   | .atom "none" => some none
   | x => (sxCps x).map some
 
+def sxName : SX → Option SName
+  | .atom "none" => some none
+  | .list [qq, n, g] => match sxQuote qq, sxCps n, sxGap g with
+    | some qq, some n, some g => some (some (qq, n, g))
+    | _, _, _ => none
+  | _ => none
+
 def sxPageItem : SX → Option (SPageItem × WGap)
   | .list [.atom "margin", n, kw, g, blk, w] =>
     match sxCps n, sxMask kw, sxGap g, sxBlock blk, sxWGap w with
@@ -299,10 +306,11 @@ def sxRule : SX → Option (SRule × WGap)
   | .list [.atom "unknown", t, w] => match sxToks t, sxWGap w with
     | some t, some w => some (.unknown t, w)
     | _, _ => none
-  | .list [.atom "media", kw, g1, mq, g2, lead, .list rules, w] =>
-    match sxMask kw, sxGap g1, sxToks mq, sxGap g2, sxWGap lead, sxRules rules, sxWGap w with
-    | some kw, some g1, some mq, some g2, some lead, some rules, some w => some (.media kw g1 mq g2 lead rules, w)
-    | _, _, _, _, _, _, _ => none
+  | .list [.atom "media", kw, g1, mq, g2, nm, lead, .list rules, w] =>
+    match sxMask kw, sxGap g1, sxToks mq, sxGap g2, sxName nm, sxWGap lead, sxRules rules, sxWGap w with
+    | some kw, some g1, some mq, some g2, some nm, some lead, some rules, some w =>
+      some (.media kw g1 mq g2 nm lead rules, w)
+    | _, _, _, _, _, _, _, _ => none
   | .list [.atom "fontface", kw, g1, blk, w] =>
     match sxMask kw, sxGap g1, sxBlock blk, sxWGap w with
     | some kw, some g1, some blk, some w => some (.fontface kw g1 blk, w)
@@ -326,15 +334,15 @@ def sxImp : SX → Option (SImp × WGap)
   | .list [.atom "unknown", t, w] => match sxToks t, sxWGap w with
     | some t, some w => some (.unknown t, w)
     | _, _ => none
-  | .list [.atom "import", kw, g1, href, g2, mq, w] =>
+  | .list [.atom "import", kw, g1, href, g2, mq, nm, w] =>
     match sxMask kw, sxGap g1, sxHref href, sxGap g2, (match mq with
       | .atom "none" => some none
       | .list [m, g3] => (match sxToks m, sxGap g3 with
         | some m, some g3 => some (some (m, g3))
         | _, _ => none)
-      | _ => none), sxWGap w with
-    | some kw, some g1, some href, some g2, some mq, some w => some (.import_ kw g1 href g2 mq, w)
-    | _, _, _, _, _, _ => none
+      | _ => none), sxName nm, sxWGap w with
+    | some kw, some g1, some href, some g2, some mq, some nm, some w => some (.import_ kw g1 href g2 mq nm, w)
+    | _, _, _, _, _, _, _ => none
   | _ => none
 
 def sxNs : SX → Option (SNs × WGap)
